@@ -20,6 +20,9 @@ type Task struct {
 	Name   string   `json:"name"`
 	Params []string `json:"params"` // promises (task names) received as parameters
 	Ops    []Op     `json:"ops"`
+	// Fails: the body ends by throwing, so the promise is settled by Reject and every await of it
+	// rethrows (the awaiters catch). The protocol of spec/Async is the same for both ways of settling.
+	Fails bool `json:"fails,omitempty"`
 }
 
 type Graph struct {
@@ -71,6 +74,9 @@ func (g *Graph) Value(n string) int {
 	t := g.task(n)
 	idx := 0
 	fmt.Sscanf(n, "t%d", &idx)
+	if t.Fails {
+		return -idx // what an awaiter computes after catching the rethrown error
+	}
 	v := idx
 	for _, o := range t.Ops {
 		if o.Kind == "await" {
@@ -100,11 +106,18 @@ func (g *Graph) Elk() string {
 			case "spawn":
 				sb.WriteString(fmt.Sprintf("  p_%s := %s\n", o.Arg, callOf(o)))
 			case "await":
-				sb.WriteString(fmt.Sprintf("  acc = acc + 10 * (await p_%s)\n", o.Arg))
+				if a := g.task(o.Arg); a != nil && a.Fails {
+					sb.WriteString(fmt.Sprintf("  do\n    acc = acc + 10 * (await p_%s) + 1000000\n  catch e\n    acc = acc + 10 * %d\n  end\n", o.Arg, g.Value(o.Arg)))
+				} else {
+					sb.WriteString(fmt.Sprintf("  acc = acc + 10 * (await p_%s)\n", o.Arg))
+				}
 			}
 		}
 		idx := 0
 		fmt.Sscanf(t.Name, "t%d", &idx)
+		if t.Fails {
+			sb.WriteString(fmt.Sprintf("  throw unchecked \"%s\" if acc < 1000000000\n", t.Name))
+		}
 		sb.WriteString(fmt.Sprintf("  acc + %d\nend\n", idx))
 	}
 	for _, o := range g.Main {
@@ -112,7 +125,11 @@ func (g *Graph) Elk() string {
 		case "spawn":
 			sb.WriteString(fmt.Sprintf("p_%s := %s\n", o.Arg, callOf(o)))
 		case "awaitsync":
-			sb.WriteString(fmt.Sprintf("o(p_%s.await_sync)\n", o.Arg))
+			if a := g.task(o.Arg); a != nil && a.Fails {
+				sb.WriteString(fmt.Sprintf("do\n  o(p_%s.await_sync + 1000000)\ncatch e\n  o(%d)\nend\n", o.Arg, g.Value(o.Arg)))
+			} else {
+				sb.WriteString(fmt.Sprintf("o(p_%s.await_sync)\n", o.Arg))
+			}
 		}
 	}
 	return sb.String()
@@ -142,6 +159,8 @@ func (g *Graph) ExpectedOutput() string {
 func sp(t string, pass ...string) Op { return Op{Kind: "spawn", Arg: t, Pass: append([]string{}, pass...)} }
 func aw(t string) Op                 { return Op{Kind: "await", Arg: t, Pass: []string{}} }
 func as(t string) Op                 { return Op{Kind: "awaitsync", Arg: t, Pass: []string{}} }
+func failing(t *Task) *Task { t.Fails = true; return t }
+
 func tk(n string, params []string, ops ...Op) *Task {
 	if params == nil {
 		params = []string{}
@@ -172,6 +191,18 @@ func FixedGraphs() []*Graph {
 		{Name: "await-twice", // the second await of the same promise takes the fast path
 			Tasks: []*Task{tk("t1", nil, sp("t2"), aw("t2"), aw("t2")), tk("t2", nil)},
 			Main:  []Op{sp("t1"), as("t1")}},
+		{Name: "await-rejected-three-times", // suspend path, then the fast path twice, on a promise settled by Reject
+			Tasks: []*Task{tk("t1", nil, sp("t2"), aw("t2"), aw("t2"), aw("t2")), failing(tk("t2", nil))},
+			Main:  []Op{sp("t1"), as("t1")}},
+		{Name: "fan-in-rejected+pressure", // two continuations on a rejected promise, a sibling keeps the queue occupied
+			Tasks: []*Task{failing(tk("t1", nil)), tk("t2", []string{"t1"}, aw("t1")), tk("t3", []string{"t1"}, aw("t1"), aw("t1")), tk("t4", nil)},
+			Main:  []Op{sp("t1"), sp("t2", "t1"), sp("t3", "t1"), sp("t4"), as("t2"), as("t3"), as("t4"), as("t1")}},
+		{Name: "fan-in-late-pressure", // t1 is resumed late, fills the queue with t5 and settles at once: with one worker both continuations meet a full queue
+			Tasks: []*Task{tk("t1", nil, sp("t4"), aw("t4"), sp("t5")), tk("t2", []string{"t1"}, aw("t1")), tk("t3", []string{"t1"}, aw("t1")), tk("t4", nil), tk("t5", nil)},
+			Main:  []Op{sp("t1"), sp("t2", "t1"), sp("t3", "t1"), as("t2"), as("t3"), as("t1")}},
+		{Name: "fan-in3+pressure", // three continuations enqueued while the queue may be full at any of them
+			Tasks: []*Task{tk("t1", nil), tk("t2", []string{"t1"}, aw("t1")), tk("t3", []string{"t1"}, aw("t1")), tk("t4", []string{"t1"}, aw("t1")), tk("t5", nil)},
+			Main:  []Op{sp("t1"), sp("t2", "t1"), sp("t3", "t1"), sp("t4", "t1"), sp("t5"), as("t2"), as("t3"), as("t4"), as("t5")}},
 	}
 }
 
@@ -198,6 +229,7 @@ func RandomGraph(rng *rand.Rand, n int, name string) *Graph {
 					}
 				}
 				child := tk(cn, append([]string{}, pass...))
+				child.Fails = rng.Intn(4) == 0
 				g.Tasks = append(g.Tasks, child)
 				csc := &scope{t: child, known: append([]string{}, pass...)}
 				build(csc, depth+1)
@@ -219,6 +251,7 @@ func RandomGraph(rng *rand.Rand, n int, name string) *Graph {
 			}
 		}
 		root := tk(rn, append([]string{}, pass...))
+		root.Fails = rng.Intn(5) == 0
 		g.Tasks = append(g.Tasks, root)
 		build(&scope{t: root, known: append([]string{}, pass...)}, 1)
 		g.Main = append(g.Main, sp(rn, pass...))
